@@ -334,7 +334,7 @@ impl<'a> Response<'a> {
                 clippy::unwrap_used,
                 reason = "`PolicySet::add` only fails on duplicate ids, but all residual policies will have unique ids"
             )]
-            ps.add(p.policy.as_ref().clone()).unwrap()
+            ps.add(p.clone().into()).unwrap()
         }
         ps
     }
